@@ -348,6 +348,21 @@ func listInputs(r *gen.RNG, emit func(string, []byte)) {
 		}
 		emit("list-repeated", ref.Reframe(f[0], rep))
 	}
+	// a valid PUBLISH followed by frames of other types that carry properties
+	// foreign to them (a decoder that keeps per-decode state around lets
+	// these land in the packet returned before)
+	if r.Chance(1, 3) {
+		pub := gen.Packet(r, ref.TPublish, gen.RandomMask(r, ref.TPublish)|1<<3, gen.Small, wfDomain)
+		pf, _ := ref.Encode(pub)
+		emit("foreign-props", pf)
+		for k := 2 + r.Intn(12); k > 0; k-- {
+			ot := gen.Pick(r, ref.TPubAck, ref.TPubRec, ref.TDisconnect, ref.TAuth, ref.TUnsubscribe, ref.TConnAck, ref.TSubAck, ref.TUnsubAck)
+			o := gen.Packet(r, ot, gen.RandomMask(r, ot), gen.Small, wfDomain)
+			o.Props = append(o.Props, ref.Prop{ID: gen.Pick[byte](r, 0x0b, 0x0b, 0x26, 0x23, 0x01), N: 1 + uint32(r.Intn(200)), S: "k", V: "v"})
+			of, _ := ref.Encode(o)
+			emit("foreign-props", of)
+		}
+	}
 	// headers declaring much more than follows (little or nothing behind them)
 	if r.Chance(1, 4) {
 		decls := []uint32{1 << 16, 1 << 20}
